@@ -239,8 +239,14 @@ func judge(ex *execution) Verdicts {
 	}
 
 	// ---------------- C04 ----------------
-	judgeC04(ex, e, &v.C04)
-	v.C04.Classes = append(v.C04.Classes, kindClass)
+	if e.Hazard != "" && c.Kind == "update" {
+		// a later ignore-failure update may or may not be dropped because of a leaked partial
+		// claim, which changes what the plugins after it are shown
+		v.C04.Skip = e.Hazard
+	} else {
+		judgeC04(ex, e, &v.C04)
+		v.C04.Classes = append(v.C04.Classes, kindClass)
+	}
 
 	// ---------------- C03 ----------------
 	switch {
